@@ -213,16 +213,22 @@ def w2(e: Engine, rep: Report):
     sep_g = code_g = None
     marker = None
     pfn = common.reply_parser_func(e) or rctx.func
-    gv = rx.group_vars(pfn.node)
+    # (the match may be made in a helper and taken apart in recv_reply)
+    scan = [pfn.node] + ([rctx.func.node] if rctx.func is not pfn else [])
+    gv = {}
+    for fnode in scan:
+        gv.update(rx.group_vars(fnode))
     code_g = gv.get('code')
     if code_g is None:
         # the variable the running code is assigned from
-        for a in walk_own(pfn.node):
-            if isinstance(a, ast.Assign) and any(
-                    isinstance(t, ast.Name) and t.id == 'code'
-                    for t in a.targets) and isinstance(a.value, ast.Name):
-                code_g = gv.get(a.value.id, code_g)
-    for n in walk_own(pfn.node):
+        for fnode in scan:
+            for a in walk_own(fnode):
+                if isinstance(a, ast.Assign) and any(
+                        isinstance(t, ast.Name) and t.id == 'code'
+                        for t in a.targets) and \
+                        isinstance(a.value, ast.Name):
+                    code_g = gv.get(a.value.id, code_g)
+    for n in [x for fnode in scan for x in walk_own(fnode)]:
         if isinstance(n, ast.Compare) and len(n.ops) == 1 and \
                 isinstance(n.comparators[0], ast.Constant) and \
                 isinstance(n.comparators[0].value, bytes) and \
